@@ -665,3 +665,48 @@ func (f *Flow) AssignsPassedAt(n ast.Node) map[*ast.AssignStmt]bool {
 	}
 	return out
 }
+
+// EveryPathPasses reports whether every path from the entry to CFG node n goes
+// through some CFG node satisfying pred (nodes of n's own block before n count).
+func (f *Flow) EveryPathPasses(n ast.Node, pred func(ast.Node) bool) bool {
+	l, ok := f.loc[n]
+	if !ok {
+		return false
+	}
+	for i := 0; i < l.idx; i++ {
+		if pred(l.b.Nodes[i]) {
+			return true
+		}
+	}
+	// search backwards-free: forward reachability from entry avoiding blocks that satisfy pred
+	blocked := map[*cfg.Block]bool{}
+	for _, b := range f.CFG.Blocks {
+		if b == l.b {
+			continue
+		}
+		for _, nd := range b.Nodes {
+			if pred(nd) {
+				blocked[b] = true
+			}
+		}
+	}
+	entry := f.CFG.Blocks[0]
+	if blocked[entry] {
+		return true
+	}
+	seen := map[*cfg.Block]bool{}
+	work := []*cfg.Block{entry}
+	for len(work) > 0 {
+		b := work[len(work)-1]
+		work = work[:len(work)-1]
+		if seen[b] || blocked[b] {
+			continue
+		}
+		seen[b] = true
+		if b == l.b {
+			return false
+		}
+		work = append(work, b.Succs...)
+	}
+	return true
+}
